@@ -78,6 +78,23 @@ Qed.
 Lemma eqb_atomish : forall a b, ty_eqb a b = true -> is_atomish a = is_atomish b.
 Proof. destruct a, b; simpl; intros; try discriminate; auto. Qed.
 
+Lemma lit_in_eqb : forall c v rs rs', In (TLit c v) rs ->
+  (forall x, In x rs -> existsb (ty_eqb x) rs' = true) -> In (TLit c v) rs'.
+Proof.
+  intros c v rs rs' Hin H. assert (M := H _ Hin). apply existsb_exists in M. destruct M as [y [Hy E]].
+  destruct y; simpl in E; try discriminate. apply andb_prop in E. destruct E as [E1 E2].
+  apply Pos.eqb_eq in E1. apply Z.eqb_eq in E2. subst. exact Hy.
+Qed.
+
+Lemma complete_eqb : forall rs rs' c, (forall x, In x rs -> existsb (ty_eqb x) rs' = true) ->
+  complete ct rs c = true -> complete ct rs' c = true.
+Proof.
+  intros rs rs' c H C. unfold complete in *. rewrite forallb_forall in *. intros m0 Hm. specialize (C m0 Hm).
+  apply existsb_exists in C. destruct C as [x [Hx Lx]]. destruct x; simpl in Lx; try discriminate.
+  apply andb_prop in Lx. destruct Lx as [L1 L2]. apply Pos.eqb_eq in L1. apply Z.eqb_eq in L2. subst.
+  apply existsb_exists. exists (TLit c0 v). split; [eapply lit_in_eqb; eauto|]. simpl. rewrite Pos.eqb_refl, Z.eqb_refl. reflexivity.
+Qed.
+
 Definition RespL (h : nat) : Prop := forall np l r l', leh ct np h l r ->
   frag2 ct l = true -> frag2 ct r = true -> frag2 ct l' = true -> ty_eqb l l' = true -> LE ct np l' r.
 Definition RespR (h : nat) : Prop := forall np l r r', leh ct np h l r ->
@@ -118,8 +135,12 @@ Proof.
            ++ destruct P as [P1 P2]. split; [apply (RL np la ra la')|apply (RR np ra la la')]; auto.
            ++ apply (RL np la ra la'); auto.
            ++ apply (RR np ra la la'); auto.
-      * destruct L as [x [Hx Lx]]. destruct (Hitems _ _ Fr Hx) as [Ax Fx].
-        apply (LE_union_r ct np _ rs x); auto. apply (RL np (TInst c xs) x); auto.
+      * destruct L as [[x [Hx Lx]]|[Cc [c' [C1 [C2 [[v Hv] Lc]]]]]].
+        -- destruct (Hitems _ _ Fr Hx) as [Ax Fx].
+           apply (LE_union_r ct np _ rs x); auto. apply (RL np (TInst c xs) x); auto.
+        -- destruct (Hitems _ _ Fr Hv) as [_ Fv].
+           apply (LE_contract ct np c xs' rs c' v); auto.
+           apply (RL np (TInst c xs) (TInst c' [])); auto. eapply lit_inst_frag; eauto.
     + (* Lit *)
       destruct l'; simpl in E; try discriminate. apply andb_prop in E. destruct E as [E1 E2].
       apply Pos.eqb_eq in E1. apply Z.eqb_eq in E2. subst. exists (S h). rewrite leh_eq. exact L.
@@ -160,10 +181,20 @@ Proof.
       apply Pos.eqb_eq in E1. apply Z.eqb_eq in E2. subst. exists (S h). rewrite leh_eq. exact L.
     + (* r = Union rs *)
       destruct r' as [| | | | |rs'|]; try (simpl in E; discriminate).
-      assert (Lx : exists x, In x rs /\ leh ct np h l x) by (destruct l; try discriminate; exact L).
-      destruct Lx as [x [Hx Lx]]. assert (M := ty_eqb_union_incl _ _ E x Hx). apply existsb_exists in M.
-      destruct M as [x' [Hx' Exx]]. destruct (Hitems _ _ Fr Hx) as [_ Fx]. destruct (Hitems _ _ Fr' Hx') as [_ Fx'].
-      apply (LE_union_r ct np l rs' x'); auto. apply (RR np l x x'); auto.
+      assert (Lx : (exists x, In x rs /\ leh ct np h l x) \/
+                   (exists c xs c' v, l = TInst c xs /\ contractible ct c = true /\ contractible ct c' = true /\
+                      complete ct rs c' = true /\ In (TLit c' v) rs /\ leh ct np h l (TInst c' []))).
+      { destruct l; try discriminate; destruct L as [L|L]; auto; try contradiction.
+        destruct L as [Cc [c' [C1 [C2 [[v Hv] Lc]]]]]. right. exists c, args, c', v. auto 10. }
+      assert (I1 := ty_eqb_union_incl _ _ E).
+      destruct Lx as [[x [Hx Lx]]|[c [xs [c' [v [-> [Cc [C1 [C2 [Hv Lc]]]]]]]]]].
+      * assert (M := I1 x Hx). apply existsb_exists in M.
+        destruct M as [x' [Hx' Exx]]. destruct (Hitems _ _ Fr Hx) as [_ Fx]. destruct (Hitems _ _ Fr' Hx') as [_ Fx'].
+        apply (LE_union_r ct np l rs' x'); auto. apply (RR np l x x'); auto.
+      * apply (LE_contract ct np c xs rs' c' v); auto.
+        -- eapply complete_eqb; eauto.
+        -- eapply lit_in_eqb; eauto.
+        -- exists h; auto.
 Qed.
 
 Lemma resp : forall h, RespL h /\ RespR h.
